@@ -22,7 +22,7 @@
 (*   status  "ok" | "fuel" | "fault" (pc outside the image, misaligned) |     *)
 (*           "outofmodel" (trap, CSR, unsupported instruction)                *)
 (*   a0, final bytes of every global, whether sp and the keep registers are   *)
-(*   restored                                                                 *)
+(*   restored, which of ra / t0 / t2 were left changed                        *)
 (* then image 2, 3, ... of the case (the same program linked differently).    *)
 (*   ImagesAgree      every later image observes what image 1 observed        *)
 (*                    (C13: relaxed vs. unrelaxed link)                       *)
@@ -111,6 +111,8 @@ Obs == [status |-> status,
         globals |-> IF status = "ok" THEN Mk([k \in 1..Len(Img.globals) |-> [name |-> Img.globals[k].name,
                                                                              bytes |-> GlobalBytes(Img.globals[k])]])
                     ELSE <<>>,
+        \* the link-register effect that is left: which of ra / t0 / t2 hold another value than before the call
+        links |-> IF status = "ok" THEN {r \in {1, 5, 7} : m.x[r + 1] # X0(C, Call)[r + 1]} ELSE {},
         kept |-> IF status = "ok"
                  THEN m.x[3] = W4(C.sp) /\ \A k \in 1..Len(C.keep) : m.x[C.keep[k] + 1] = X0(C, Call)[C.keep[k] + 1]
                  ELSE TRUE]
@@ -123,7 +125,7 @@ NextImage ==
     /\ UNCHANGED <<chunk, i, av>>
 
 NoMachine == [pc |-> WZero(4), x |-> <<>>, mem |-> [salt |-> 0, ov |-> <<>>]]
-NoObs == [status |-> "idle", a0 |-> <<>>, globals |-> <<>>, kept |-> TRUE]
+NoObs == [status |-> "idle", a0 |-> <<>>, globals |-> <<>>, links |-> {}, kept |-> TRUE]
 Init == chunk = 0 /\ i = 0 /\ av = 0 /\ im = 0 /\ m = NoMachine /\ status = "idle" /\ steps = 0 /\ first = NoObs
 PickChunk == /\ chunk = 0 /\ chunk' \in 1..NChunks
              /\ UNCHANGED <<i, av, im, m, status, steps, first>>
@@ -149,6 +151,7 @@ ImagesAgree ==
         /\ status = "ok"
         /\ Obs.a0 = first.a0
         /\ SameGlobals(Obs.globals, first.globals)
+        /\ Obs.links = first.links
 ConventionKept == Finished => Obs.kept
 AsExpected ==
     (Finished /\ "expect" \in DOMAIN C) =>
